@@ -6,6 +6,7 @@ from its *current source* with two rewrites that are the identity on ordinary va
 
     a in b        ->  __symx_in__(a, b)            a not in b  ->  not __symx_in__(a, b)
     s.join(xs)    ->  __symx_join__(s, xs)         (only for the method name `join` with one positional argument)
+    ord(x)        ->  __symx_ord__(x)              chr(x)      ->  __symx_chr__(x)      (a symbolic character <-> its symbolic code point)
 
 Nothing else is touched; line numbers are preserved.  Counterexample replays (`python -m harness.replay`) run in a fresh
 interpreter *without* this hook, i.e. on the pristine code.
@@ -40,6 +41,26 @@ def _symx_join(sep, parts):
     return sep.join(parts)
 
 
+def _symx_ord(x):
+    from .symstr import SymStr
+    from .symnum import SymInt
+    if isinstance(x, SymStr) and not x.concrete():
+        if len(x.items) != 1:
+            raise TypeError("ord() expected a character, but string of length %d found" % len(x.items))
+        return SymInt(x.items[0], 0, 0x10FFFF)
+    return ord(x.plain() if isinstance(x, SymStr) else x)
+
+
+def _symx_chr(x):
+    from .symstr import SymStr
+    from .symnum import SymInt
+    if isinstance(x, SymInt):
+        if x.lo is not None and x.lo == x.hi:
+            return chr(x.lo)
+        return SymStr([x.e])
+    return chr(x)
+
+
 class _Rewrite(ast.NodeTransformer):
     def visit_Compare(self, node):
         self.generic_visit(node)
@@ -52,6 +73,9 @@ class _Rewrite(ast.NodeTransformer):
     def visit_Call(self, node):
         self.generic_visit(node)
         f = node.func
+        if isinstance(f, ast.Name) and f.id in ("ord", "chr") and len(node.args) == 1 and not node.keywords and not isinstance(node.args[0], ast.Starred):
+            new = ast.Call(func=ast.Name(id="__symx_%s__" % f.id, ctx=ast.Load()), args=node.args, keywords=[])
+            return ast.copy_location(new, node)
         if isinstance(f, ast.Attribute) and f.attr == "join" and len(node.args) == 1 and not node.keywords and not isinstance(node.args[0], ast.Starred):
             new = ast.Call(func=ast.Name(id="__symx_join__", ctx=ast.Load()), args=[f.value, node.args[0]], keywords=[])
             return ast.copy_location(new, node)
@@ -96,5 +120,7 @@ def install():
         raise RuntimeError("symx.instrument.install() must run before the first import of %s (already imported: %s)" % (PACKAGE, already[:3]))
     builtins.__symx_in__ = _symx_in
     builtins.__symx_join__ = _symx_join
+    builtins.__symx_ord__ = _symx_ord
+    builtins.__symx_chr__ = _symx_chr
     sys.meta_path.insert(0, _Finder())
     _INSTALLED[0] = True
